@@ -46,6 +46,11 @@ pub enum Scen {
     S5,
     S6,
     S7,
+    /// 170 connections between one pair of endpoints; the client endpoint is closed while all of them
+    /// are open, so that more endpoint events than the driver's per-poll bound are queued at once
+    S8,
+    /// the same with 330 connections (more than twice the bound)
+    S8x,
 }
 
 impl Scen {
@@ -60,10 +65,12 @@ impl Scen {
             Scen::S5 => "S5",
             Scen::S6 => "S6",
             Scen::S7 => "S7",
+            Scen::S8 => "S8",
+            Scen::S8x => "S8x",
         }
     }
     pub fn parse(s: &str) -> Option<Self> {
-        [Scen::S1, Scen::S1w, Scen::S2, Scen::S3, Scen::S4a, Scen::S4r, Scen::S5, Scen::S6, Scen::S7].into_iter().find(|x| x.name() == s)
+        [Scen::S1, Scen::S1w, Scen::S2, Scen::S3, Scen::S4a, Scen::S4r, Scen::S5, Scen::S6, Scen::S7, Scen::S8, Scen::S8x].into_iter().find(|x| x.name() == s)
     }
 }
 
@@ -1673,6 +1680,87 @@ async fn s7_server_conn(o: Arc<Obs>, inc: Incoming, ep: Endpoint) {
     o.stage("done");
 }
 
+// S8: many connections shut down at once (more endpoint events queued than the endpoint driver
+// handles per poll)
+
+pub fn s8_conns(scen: Scen) -> u32 {
+    if scen == Scen::S8x { 330 } else { 170 }
+}
+
+async fn s8_client(o: Arc<Obs>, ep: Endpoint, cc: ClientConfig, saddr: SocketAddr) {
+    let n = s8_conns(o.scen);
+    let latch = Arc::new(Latch::default());
+    let conns: Arc<Mutex<Vec<quinn::Connection>>> = Arc::new(Mutex::new(vec![]));
+    for i in 0..n {
+        let (o, ep, cc, latch, conns) = (o.clone(), ep.clone(), cc.clone(), latch.clone(), conns.clone());
+        o.world.clone().spawn_app(&format!("cli.c{i}"), async move {
+            let r = async {
+                let connecting = ep.connect_with(cc, saddr, "localhost").map_err(|e| format!("connect_with: {e:?}"))?;
+                drop(ep);
+                let conn = aw!(o, "cli.connect", connecting).map_err(|e| format!("connect: {}", cerr(&e)))?;
+                let mut s = aw!(o, "cli.open_uni", conn.open_uni()).map_err(|e| format!("open_uni: {}", cerr(&e)))?;
+                let body = [i as u8; 100];
+                aw!(o, "cli.write", s.write_all(&body)).map_err(|e| format!("write: {e:?}"))?;
+                s.finish().map_err(|e| format!("finish: {e:?}"))?;
+                match aw!(o, "cli.stopped", s.stopped()) {
+                    Ok(None) => {}
+                    r => return Err(format!("stopped(): {r:?}")),
+                }
+                Ok::<_, String>(conn)
+            }
+            .await;
+            match r {
+                Ok(c) => conns.lock().unwrap().push(c),
+                Err(e) => o.fail("O1:many-connections", format!("connection {i}: {e}")),
+            }
+            latch.arrive();
+            o.stage("done");
+        });
+    }
+    aw!(o, "cli.join", latch.wait(n));
+    let held = conns.lock().unwrap().len();
+    if held as u32 != n {
+        o.fail("O1:many-connections", format!("{held} of {n} connections were established"));
+    }
+    ep.close(VarInt::from_u32(0), b"bye");
+    conns.lock().unwrap().clear();
+    aw!(o, "cli.wait_idle", ep.wait_idle());
+    if ep.open_connections() != 0 {
+        o.fail("O3:open-connections-after-idle", format!("wait_idle() returned but open_connections() = {}", ep.open_connections()));
+    }
+    drop(ep);
+    o.stage("done");
+}
+
+async fn s8_server_conn(o: Arc<Obs>, inc: Incoming, ep: Endpoint) {
+    let conn = match aw!(o, "srv.handshake", inc.into_future()) {
+        Ok(c) => c,
+        Err(e) => return o.fail("O1:accept", format!("incoming.await: {}", cerr(&e))),
+    };
+    match aw!(o, "srv.accept_uni", conn.accept_uni()) {
+        Ok(mut r) => match aw!(o, "srv.read_to_end", r.read_to_end(1000)) {
+            Ok(d) if d.len() == 100 && d.iter().all(|b| *b == d[0]) => {}
+            r => o.fail("O2:data", format!("server read {:?}, 100 equal bytes were written", r.map(|d| d.len()))),
+        },
+        Err(e) => o.fail("O1:accept_uni", format!("accept_uni: {}", cerr(&e))),
+    }
+    let e = aw!(o, "srv.closed", conn.closed());
+    if cerr(&e) != "app(0,\"bye\")" {
+        o.note(&format!("srv_closed:{}", cerr(&e)), 1);
+    }
+    drop(conn);
+    let done = {
+        let mut m = o.m.lock().unwrap();
+        let c = m.notes.entry("s8_server_connections_closed".into()).or_insert(0);
+        *c += 1;
+        *c
+    };
+    if done == s8_conns(o.scen) as i64 {
+        ep.close(VarInt::from_u32(0), b"");
+    }
+    o.stage("done");
+}
+
 async fn accept_loop(o: Arc<Obs>, ep: Endpoint) {
     let mut n = 0u32;
     loop {
@@ -1709,6 +1797,7 @@ async fn accept_loop(o: Arc<Obs>, ep: Endpoint) {
             Scen::S5 => o.world.spawn_app(&name, s5_server_conn(o2, inc, e2)),
             Scen::S6 => o.world.spawn_app(&name, s6_server_conn(o2, inc, e2)),
             Scen::S7 => o.world.spawn_app(&name, s7_server_conn(o2, inc, e2)),
+            Scen::S8 | Scen::S8x => o.world.spawn_app(&name, s8_server_conn(o2, inc, e2)),
         };
     }
     op!(o, "srv.wait_idle", ep.wait_idle());
@@ -1771,6 +1860,9 @@ pub fn run_spec(base: Instant, spec: &Spec, keep_trace: bool) -> Outcome {
     if let Some((segs, burst)) = spec.gro {
         world.set_gro(segs, burst);
     }
+    if matches!(spec.scen, Scen::S8 | Scen::S8x) {
+        world.set_fifo(true);
+    }
     let obs = Arc::new(Obs {
         world: world.clone(),
         scen: spec.scen,
@@ -1799,11 +1891,13 @@ pub fn run_spec(base: Instant, spec: &Spec, keep_trace: bool) -> Outcome {
             Scen::S5 => world.spawn_app("cli.main", s5_client(obs.clone(), cep, cc, saddr)),
             Scen::S6 => world.spawn_app("cli.main", s6_client(obs.clone(), cep, cc, saddr)),
             Scen::S7 => world.spawn_app("cli.main", s7_client(obs.clone(), cep, cc, saddr)),
+            Scen::S8 | Scen::S8x => world.spawn_app("cli.main", s8_client(obs.clone(), cep, cc, saddr)),
         };
         drop(rt);
         world.block_send_at(spec.send_block);
         let devs: BTreeMap<u64, u16> = spec.devs.iter().copied().collect();
-        world.run(&devs, &LIMITS)
+        let many = Limits { max_polls: 2_000_000, horizon: LIMITS.horizon };
+        world.run(&devs, if matches!(spec.scen, Scen::S8 | Scen::S8x) { &many } else { &LIMITS })
     };
     let points = world.points.load(std::sync::atomic::Ordering::Relaxed);
     let tasks = world.task_table();
@@ -1946,12 +2040,17 @@ pub fn run_spec(base: Instant, spec: &Spec, keep_trace: bool) -> Outcome {
             }
         }
     }
+    let mut notes = m.notes;
+    let tb = world.max_timer_batch.load(std::sync::atomic::Ordering::Relaxed);
+    if tb > 0 {
+        notes.insert("max_timers_expiring_at_one_instant".into(), tb as i64);
+    }
     let out = Outcome {
         points,
         trace: world.trace_hash(),
         viol,
         sites: m.sites,
-        notes: m.notes,
+        notes,
         cancels: m.cancels,
         polls: tasks.iter().map(|t| t.polls).sum(),
         vtime: world.vnow(),
